@@ -168,17 +168,17 @@ def _draw_arg_to_arr(arg, ids=None):
         Attributes for drawing parameter. Scalars are ignored.
     ids : iterable, optional
         The IDs of the elements being plotted, in plotting order. If given and
-        `arg` is a dict, its values are looked up by ID in that order (rather
-        than taken in the dict's own order). By default, None.
+        `arg` is a dict or a stat, its values are looked up by ID in that order
+        (rather than taken in its own order). By default, None.
 
     Returns
     -------
     arg : ndarray
         Drawing argument in matplotlib-compliant form (scalar or array)
     """
-    if isinstance(arg, IDStat):
-        arg = arg.asnumpy()
-    elif isinstance(arg, dict):
+    if isinstance(arg, IDStat):  # a stat is a per-ID argument: look it up by ID, like a dict
+        arg = arg.asdict()
+    if isinstance(arg, dict):
         if ids is not None:
             values = [arg[i] for i in ids if i in arg]
         else:
